@@ -168,6 +168,29 @@ impl IVP for MassLin {
     }
 }
 
+/// Van der Pol (mu = 1000) with analytic Jacobian: stiff and strongly nonlinear, drives Radau/BDF Newton iterations into their failure branches.
+struct Vdp { mu: f64, odes: Cell<usize>, jacs: Cell<usize> }
+impl IVP for Vdp {
+    fn ode(&self, _x: f64, y: &[f64], d: &mut [f64]) { self.odes.set(self.odes.get() + 1); d[0] = y[1]; d[1] = self.mu * (1.0 - y[0] * y[0]) * y[1] - y[0]; }
+    fn jac(&self, _x: f64, y: &[f64], j: &mut Matrix) {
+        self.jacs.set(self.jacs.get() + 1);
+        j[(0, 0)] = 0.0; j[(0, 1)] = 1.0;
+        j[(1, 0)] = -2.0 * self.mu * y[0] * y[1] - 1.0; j[(1, 1)] = self.mu * (1.0 - y[0] * y[0]);
+    }
+}
+struct RecB { rows: Vec<(f64, f64, f64, f64, f64, f64)> }
+impl SolOut for RecB {
+    fn solout(&mut self, xold: f64, x: &mut f64, y: &mut [f64], it: Option<&StepInterpolant<'_>>) -> ControlFlag {
+        if let Some(i) = it {
+            let b = i.bounds();
+            let mut yi = vec![0.0; y.len()];
+            i.interpolate(*x, &mut yi);
+            self.rows.push((xold, *x, b.0, b.1, y[0], yi[0]));
+        }
+        ControlFlag::Continue
+    }
+}
+
 /// Event functions for the handler replay: concrete end-point values per callback, exact zero at
 /// every interior (Brent) probe.
 struct Ev { configs: Vec<(Direction, Option<usize>)>, vals: Vec<Vec<f64>>, call: Cell<usize>, probes: Cell<usize> }
@@ -429,6 +452,45 @@ fn main() {
                 out.push(format!("\"{}\":{{\"status\":\"{:?}\",\"t\":{},\"ends_at_xend\":{}}}", nm, s.status, jl(&s.t), (last - 1.0).abs() < 1e-9));
             }
             println!("{{{}}}", out.join(","));
+        }
+        // probe modinit METHOD h0 rtol : (a) y0 = 0.5 and the INITIAL callback writes 0.25 + ModifiedSolution, (b) y0 = 0.25 and Continue:
+        //   from the first step on the two runs must be the same run (callback times bit-for-bit), (a) with one more evaluation
+        "modinit" => {
+            let h0: f64 = a[3].parse().unwrap();
+            let rtol: f64 = a[4].parse().unwrap();
+            let mut outs = vec![];
+            for (y0, flags) in [(0.5, "M"), (0.25, "C")] {
+                let run = Run { method: a[2].clone(), x0: 0.0, xend: 0.5, y0, h0: Some(h0), max_step: None, max_steps: 100000, rtol, atol: rtol * 1e-2, dense: true };
+                let f = F::new(Rhs::Smooth);
+                let mut so = Rec { cbs: vec![], dense: vec![], bounds: vec![], thetas: vec![], stop_after: 0, flags: flags.as_bytes().to_vec(), modified_to: 0.25, xout_at: 0.0, calls_at_cb: vec![], had_interp: vec![] };
+                let r = solve(&run, &f, &mut so);
+                let xs: Vec<f64> = so.cbs.iter().map(|c| c.1).collect();
+                let ys: Vec<f64> = so.cbs.iter().skip(1).map(|c| c.2).collect();
+                outs.push(format!("{{\"ok\":{},\"x\":{},\"y\":{},\"ode_calls\":{}}}", r.is_ok(), jl(&xs), jl(&ys), f.calls.borrow().len()));
+            }
+            println!("{{\"runs\":[{}]}}", outs.join(","));
+        }
+        // probe stiffdense METHOD rtol xend : Van der Pol mu=1000; per accepted step: does the interpolant span [xold, x] and reproduce y at x?
+        "stiffdense" => {
+            let rtol: f64 = a[3].parse().unwrap();
+            let xend: f64 = a[4].parse().unwrap();
+            let f = Vdp { mu: 1000.0, odes: Cell::new(0), jacs: Cell::new(0) };
+            let mut so = RecB { rows: vec![] };
+            let y0 = [2.0, 0.0];
+            let r = match a[2].as_str() {
+                "RADAU" => RADAU::builder().build().solve(&f, 0.0, &y0, xend, rtol.into(), rtol.into(), Some(&mut so)),
+                _ => BDF::builder().build().solve(&f, 0.0, &y0, xend, rtol.into(), rtol.into(), Some(&mut so)),
+            };
+            let mut bad = vec![];
+            for (k, r) in so.rows.iter().enumerate() {
+                let (lo, hi) = if r.2 <= r.3 { (r.2, r.3) } else { (r.3, r.2) };
+                let tol = 8.0 * f64::EPSILON * (r.0.abs().max(r.1.abs()));
+                let span_ok = (lo - r.0.min(r.1)).abs() <= tol && (hi - r.0.max(r.1)).abs() <= tol;
+                let val_ok = (r.5 - r.4).abs() <= 1e-9 * (1.0 + r.4.abs());
+                if !span_ok || !val_ok { bad.push(format!("{{\"step\":{},\"xold\":{},\"x\":{},\"lo\":{},\"hi\":{},\"y\":{},\"interp_at_x\":{}}}", k, js(r.0), js(r.1), js(lo), js(hi), js(r.4), js(r.5))); }
+            }
+            let (nfev, njev, st) = match &r { Ok(v) => (v.evals.ode, v.evals.jac, format!("{:?}", v.status)), Err(_) => (0, 0, String::new()) };
+            println!("{{\"ok\":{},\"steps\":{},\"status\":\"{}\",\"nfev\":{},\"njev\":{},\"ode_calls\":{},\"jac_calls\":{},\"bad\":[{}]}}", r.is_ok(), so.rows.len(), st, nfev, njev, f.odes.get(), f.jacs.get(), bad.iter().take(5).cloned().collect::<Vec<_>>().join(","));
         }
         // probe optindep : solve_ivp (RK4, 250001 fixed steps; RK23 with a tight max_step) with and without dense_output / t_eval, default max_steps:
         //   status, number of accepted steps and final state must not depend on the output options
